@@ -923,7 +923,9 @@ func (p *Parser) parseFuncParams(in string) (params Params) {
 			// binding rest element
 			p.next()
 			params.Rest = p.parseBinding(ArgumentDecl)
-			p.consume(in, CloseParenToken)
+			if p.consume(in, CloseParenToken) {
+				p.scope.MarkFuncArgs()
+			}
 			return
 		}
 		params.List = append(params.List, p.parseBindingElement(ArgumentDecl))
